@@ -1,0 +1,43 @@
+//go:build verif
+
+package fzf
+
+import (
+	"time"
+
+	"github.com/junegunn/fzf/src/util"
+)
+
+// Verification hook (build tag verif): what executeCommand, the preview path, become and reload do with a
+// command template, on a minimal Terminal: buildPlusList, then Terminal.replacePlaceholder. No logic of its own.
+
+// VerifTerminalExpand builds a Terminal whose (unsorted, unfiltered) list is `items` in this order, whose cursor is on
+// list position cy (outside 0..len(items)-1: no current item), and where the items at list positions selOrder have
+// been selected one after the other (selection time = position in selOrder). It returns what buildPlusList answered
+// (valid), the expanded command, the temp files written and the name of the last action used for {fzf:action}.
+func VerifTerminalExpand(template string, forcePlus bool, delim *string, printsep string, query string,
+	items []VerifItem, cy int, selOrder []int, prompt string, withShell string) (bool, string, []string, string) {
+	results := make([]Result, len(items))
+	for i := range items {
+		results[i] = Result{item: verifItem(&items[i])}
+	}
+	action := actBackwardDeleteCharEof
+	t := &Terminal{
+		merger:       NewMerger(nil, [][]Result{results}, false, false, revision{}, 0),
+		cy:           cy,
+		multi:        len(items) + 1,
+		selected:     make(map[int32]selectedItem),
+		delimiter:    Delimiter{str: delim},
+		printsep:     printsep,
+		lastAction:   action,
+		promptString: prompt,
+		executor:     util.NewExecutor(withShell),
+	}
+	for k, pos := range selOrder {
+		item := results[pos].item
+		t.selected[item.Index()] = selectedItem{time.Unix(int64(k), 0), item}
+	}
+	valid, list := t.buildPlusList(template, forcePlus)
+	out, temps := t.replacePlaceholder(template, forcePlus, query, list)
+	return valid, out, temps, action.Name()
+}
